@@ -8,6 +8,7 @@ RERUN = {
     "C11.regex-and-batch-equal-expansion": rules.rerun_expansion,
     "C13.rule-call-chains-vs-specification-automaton": builders.rerun_c13,
     "C13.absent-module-names-never-give-a-verdict": builders.rerun_c13,
+    "C13.layer-diagram-entry-point-specifications": builders.rerun_other_builders,
     "C16.layer-builder-sequences-vs-specification-automaton": builders.rerun_c16,
     "C14.verdicts-and-messages-invariant-under-component-renaming": invariance.rerun_renaming,
     "C15.purity-history-order-seed-independence": invariance.rerun_purity,
